@@ -898,4 +898,84 @@ def noBadS : List St → Bool
   | s :: ss => s.noBad && noBadS ss
 end
 
+/-! ## re-use of a constructed program: a delivery that reaches every element
+
+A constructed sequence may be placed into a second enclosing sequence (lena's own tests re-use elements): its
+`_set_context` is then called with a context that need not be above the earlier ones.  `LenaSequence._set_context`
+skips an element while the running context is empty and stops at an unresolved key, `LenaSplit._set_context`
+returns at once for an empty context, `Write`/`Cache` keep their name when it cannot be formatted: such elements
+keep what an EARLIER delivery left.  `covers t c` says that none of this happens when `c` is delivered to `t`. -/
+
+def okB {ε α : Type} : Except ε α → Bool
+  | .ok _ => true
+  | .error _ => false
+
+/-- `_set_context(c)` of a leaf element is called (`c` is not empty) and overwrites everything the element holds -/
+def coversElem (n : Nat) : Elem → Ctx → Bool
+  | .set k ks v, c => nonEmpty c && okB (fmtUpdate n k ks v c)
+  | .store, c => nonEmpty c
+  | .ucfs, c => nonEmpty c
+  | .mkf _, c => nonEmpty c
+  | .write t, c => nonEmpty c && (t.parts.isEmpty || okB (fmt t c))
+  | .cache t, c => nonEmpty c && (t.parts.isEmpty || okB (fmt t c))
+  | .data, _ => true
+  | .mut .., _ => true
+  | .src, _ => true
+
+mutual
+/-- the delivery of `c` to the program `t` reaches every element below it: no formatting key is unresolved and no
+element with `_set_context` is handed an empty context -/
+def covers (n : Nat) : Tree → Ctx → Bool
+  | .leaf e, c => coversElem n e c
+  | .seq _ cs, c => nonEmpty c && coversL n cs c
+  | .split bs, c => nonEmpty c && coversB n bs c
+def coversL (n : Nat) : List Tree → Ctx → Bool
+  | [], _ => true
+  | t :: ts, c =>
+    covers n t c &&
+      match fold n t c with
+      | .ok c' => coversL n ts c'
+      | .error _ => false
+def coversB (n : Nat) : List Tree → Ctx → Bool
+  | [], _ => true
+  | b :: bs, c => covers n b c && coversB n bs c
+end
+
+mutual
+/-- the program that an object was constructed from (its stored contexts and names forgotten) -/
+def St.prog : St → Tree
+  | .set k ks v _ => .leaf (.set k ks v)
+  | .store _ => .leaf .store
+  | .ucfs _ => .leaf .ucfs
+  | .mkf m _ => .leaf (.mkf m)
+  | .write t _ => .leaf (.write t)
+  | .cache t _ => .leaf (.cache t)
+  | .data => .leaf .data
+  | .mut k ks l => .leaf (.mut k ks l)
+  | .src => .leaf .src
+  | .seq kind cs _ => .seq kind (progL cs)
+  | .split bs => .split (progL bs)
+def progL : List St → List Tree
+  | [] => []
+  | s :: ss => s.prog :: progL ss
+end
+
+mutual
+/-- invariant of real objects: a `Write` / `Cache` whose string has no field never formats it
+(`if '{' not in self._orig_…: return`), so its name is still the unformatted string -/
+def St.namesOK : St → Bool
+  | .write t nm => !t.parts.isEmpty || nm.isNone
+  | .cache t nm => !t.parts.isEmpty || nm.isNone
+  | .seq _ cs _ => namesOKL cs
+  | .split bs => namesOKL bs
+  | _ => true
+def namesOKL : List St → Bool
+  | [] => true
+  | s :: ss => s.namesOK && namesOKL ss
+end
+
+/-- `top._set_context(c)` for the contexts of `cs` in turn: the objects afterwards -/
+def deliverAll (n : Nat) (s : St) (cs : List Ctx) : St :=
+  cs.foldl (fun acc c => (setCtx n acc c).1) s
+
 end Lena.C13
